@@ -79,7 +79,7 @@ PROPS = {
         "assumptions": ["UTF-8 validity of filter bytes is decided outside the model (passed as a flag); ':' is ASCII so str::split_once is a byte-level split"],
     },
     "C16": {
-        "lean_modules": ["DocsModel.Props.C16"],
+        "lean_modules": ["DocsModel.Props.C16", "DocsModel.Props.C14"],
         "trusted_base": COMMON_TRUST + ["redb tables are modelled as sorted lists whose range() is the in-order filter by the bounds (element-wise tuple comparison, lexicographic byte strings); redb itself is not verified",],
         "assumptions": ["all namespace and author ids are 32 bytes (Wf32)"],
     },
